@@ -165,12 +165,15 @@ def decodeSkin (x : SkinIn) : Except Err SkinOut :=
   match partition x.vcounts x.stream (nindices x.jo x.wo) with
   | .error e => .error e
   | .ok idx =>
-  match columns x.jo idx, columns x.wo idx with
-  | .ok ji, .ok wi =>
-    (match checkRange x.nWeightJoints x.nWeights ji wi with
-     | .error e => .error e
-     | .ok () => .ok ⟨g, b, js, idx, ji, wi⟩)
-  | _, _ => .error .malformed
+  match columns x.jo idx with
+  | .error e => .error e
+  | .ok ji =>
+  match columns x.wo idx with
+  | .error e => .error e
+  | .ok wi =>
+  match checkRange x.nWeightJoints x.nWeights ji wi with
+  | .error e => .error e
+  | .ok () => .ok ⟨g, b, js, idx, ji, wi⟩
 
 /-! ### morph -/
 
